@@ -3556,6 +3556,15 @@ static Type check_statement_impl(TypeChecker *tc, ASTNode *stmt) {
             }
 
             for (int i = 0; i < stmt->as.match_expr.arm_count; i++) {
+                /* Every arm must name a variant of the matched union */
+                if (union_base_name && env_get_union(tc->env, union_base_name) &&
+                    stmt->as.match_expr.pattern_variants[i] &&
+                    env_get_union_variant_index(tc->env, union_base_name, stmt->as.match_expr.pattern_variants[i]) < 0) {
+                    TC_ERRORF("Error at line %d, column %d: Union '%s' has no variant '%s'\n",
+                              stmt->line, stmt->column, union_base_name, stmt->as.match_expr.pattern_variants[i]);
+                    tc->has_error = true;
+                }
+
                 Value binding_val = create_void();
                 env_define_var_with_type_info(tc->env,
                     stmt->as.match_expr.pattern_bindings[i],
